@@ -152,12 +152,8 @@ func parseSegments(version string) ([]segment, error) {
 		prereleaseParts := strings.Split(prereleasePart, ".")
 		for _, part := range prereleaseParts {
 			if part != "" {
-				// Prerelease parts are always treated as non-numeric for comparison purposes
-				segments = append(segments, segment{
-					value:     strings.ToLower(part),
-					isNumeric: false,
-					numValue:  0,
-				})
+				// Numbers in the prerelease part compare numerically (beta.2 < beta.10)
+				segments = append(segments, createSegment(part))
 			}
 		}
 	}
